@@ -68,6 +68,29 @@ def structured(fam, rng):
             w_ = [rng.randrange(Q) for _ in range(n)]
             w_[slot], w_[slot + 1] = c0, c1
             out.append(w_)
+    # elements with REPEATED components (equal Fq coefficients, equal Fq2 / Fq6 components)
+    for _ in range(3):
+        a_, b_ = rng.randrange(Q), rng.randrange(Q)
+        out.append([a_] * n)
+        if n >= 6:
+            x_, y_ = [a_, b_], [rng.randrange(Q), rng.randrange(Q)]
+            for pat in ("xyy", "xxy", "yxy", "xxx"):
+                v = []
+                for ch in pat:
+                    v += x_ if ch == "x" else y_
+                out.append(v if n == 6 else v + [rng.randrange(Q) for _ in range(6)])
+                if n == 12:
+                    out.append([rng.randrange(Q) for _ in range(6)] + v)
+                    out.append(v + v)
+    # elements of the subfields that are NOT coefficient patterns of the tower: Fq3 in Fq6 / Fq12, Fq4 in Fq12 (traces)
+    if n >= 6:
+        for d in ((3,) if n == 6 else (3, 4)):
+            for _ in range(3):
+                x = F.f12_from_coeffs([rng.randrange(Q) for _ in range(n)] + [0] * (12 - n))
+                acc = F.F12_ZERO
+                for i in range((6 if n == 6 else 12) // d):
+                    acc = F.f12_add(acc, F.f12_frobenius(x, d * i))
+                out.append(F.f12_coeffs(acc)[:n])
     # zero patterns
     masks = range(1 << n) if n <= 6 else [rng.getrandbits(n) for _ in range(48)] + [(1 << n) - 1 - (1 << i) for i in range(n)]
     for mk in masks:
@@ -144,6 +167,26 @@ def run_shard(shard, tier, seed, wd, res):
                     s.op("%s.%s" % (fam, op), ta, b)
                 s.op(fam + ".mul", b, ta)
                 s.op(fam + ".sub", b, ta)
+            # operands that AGREE in part: one coefficient changed, one component (Fq2 / Fq6 block) kept and the rest
+            # random, one component replaced - in both orders
+            partial = []
+            for i_ in {0, n - 1, rng.randrange(n)}:
+                a2 = list(a)
+                a2[i_] = (a2[i_] + rng.choice([1, Q - 1, rng.randrange(1, Q)])) % Q
+                partial.append(a2)
+            for blk in ({2} if n <= 6 else {2, 6}):
+                for keep in range(0, n, blk):
+                    a2 = [rng.randrange(Q) for _ in range(n)]
+                    a2[keep:keep + blk] = a[keep:keep + blk]
+                    partial.append(a2)
+                    a3 = list(a)
+                    a3[keep:keep + blk] = [rng.randrange(Q) for _ in range(blk)]
+                    partial.append(a3)
+            for a2 in partial:
+                tb = mk(a2)
+                for op in ("mul", "add", "sub", "eq"):
+                    s.op("%s.%s" % (fam, op), ta, tb)
+                s.op(fam + ".mul", tb, ta)
             # results that are 0 / 1 by construction, fed on
             z = s.op(fam + ".add", ta, rel[0])
             s.op(fam + ".inv", z)
